@@ -387,8 +387,8 @@ add('C16.elif_no_append', 'C16', (MMF, "      elif isinstance(buffer.data, np.nd
     'C16.R4', 'empty ndarray buffers get no constant-map entry: later indices shift')
 add('C16.size_of_other', 'C16', (MMF, "      buffer.size = len(buffer_data)\n", "      buffer.size = len(dummy_bytearray)\n"), 'C16.R1', 'size recorded is not the length of the appended constant')
 add('C16.threshold', 'C16', (MMF, "    if constant_buffer_size > 2**31 - 2**20:", "    if constant_buffer_size > 2**32 - 2**20:"), 'C16.R5', 'threshold above the flatbuffer limit')
-add('C16.skip_small', 'C16', (MMF, "    for buffer_idx, _ in enumerate(quantized_model.buffers):\n      buffer_data = self._constant_map[buffer_idx]\n      if buffer_data is None:\n        continue",
-    "    for buffer_idx, _ in enumerate(quantized_model.buffers):\n      buffer_data = self._constant_map[buffer_idx]\n      if not buffer_data:\n        continue"), 'C16.R2', 'emitting pass skips empty constants that the first pass counted')
+add('C16.skip_small', 'C16', (MMF, "    for buffer_idx, _ in enumerate(quantized_model.buffers):\n      buffer_data = self._constant_map[buffer_idx]\n      if buffer_data is None or len(buffer_data) == 0:\n        continue",
+    "    for buffer_idx, _ in enumerate(quantized_model.buffers):\n      buffer_data = self._constant_map[buffer_idx]\n      if buffer_data is None or len(buffer_data) < 3:\n        continue"), ('C16.R2', 'C16.R6'), 'emitting pass skips small constants that the first pass counted')
 add('C16.cached_modifier', 'C16', [(QZ, "    self._result: QuantizationResult = QuantizationResult([{}], None)", "    self._model_modifier = model_modifier.ModelModifier(self.float_model)\n    self._result: QuantizationResult = QuantizationResult([{}], None)"),
     (QZ, "    model_modifier_instance = model_modifier.ModelModifier(self.float_model)\n    return model_modifier_instance.modify_model(quant_params)", "    return self._model_modifier.modify_model(quant_params)")],
     'C16.R4', 'ModelModifier cached on the Quantizer: stale constant map (seeded a2-C16)')
@@ -575,3 +575,24 @@ add('C19.map_of_subgraph_zero', 'C19', ('transformation_performer.py', "      co
     "      consumers.append(self._original_op_id_map[0][original_op_id])"), 'C19.R9', 'consumer ids translated with the map of subgraph 0')
 add('C01.shared_added_lists', 'C01', ('transformation_performer.py', "    for subgraph in tflite_model.subgraphs:\n      self._original_op_id_map.append(list(range(len(subgraph.operators))))\n      self._added_op_id_map.append([])",
     "    for subgraph in tflite_model.subgraphs:\n      self._original_op_id_map.append(list(range(len(subgraph.operators))))\n    self._added_op_id_map = [[]] * len(tflite_model.subgraphs)"), 'C01.R8', 'all subgraphs share one added-op list')
+
+TIGF = 'transformation_instruction_generator.py'
+add('C02.output_not_recorded', 'C02', (TIGF, "      if tensor_id in subgraph.outputs:\n        consumers.insert(0, -1)\n", "      if tensor_id in subgraph.outputs and not consumers:\n        consumers.insert(0, -1)\n"),
+    'C02.R6', 'a graph output that also feeds an operator does not record the pseudo consumer -1')
+add('C01.consumer_once', 'C01', (TIGF, "      consumers = [\n          op_id\n          for (op_id, op) in enumerate(subgraph.operators)\n          if tensor_id in op.inputs\n      ]",
+    "      consumers = [\n          op_id\n          for (op_id, op) in enumerate(subgraph.operators)\n          if tensor_id in op.inputs[:2]\n      ]"),
+    'C01.R13', 'only the first two operands of an operator count as consumers')
+add('C19.producer_last', 'C19', (TIGF, "          producer = op_id\n          break\n", "          producer = op_id + subgraph_id\n          break\n"),
+    'C19.R1', 'producer id offset by the subgraph index')
+add('C19.twin_generator_rename', 'C19', (TIGF, "      tensor_info = self.TensorGraphInfo(\n          tensor_id, subgraph_id, producer, consumers\n      )\n      tensor_name = tfl_flatbuffer_utils.get_tensor_name(tensor)\n      yield tensor_name, tensor_info",
+    "      info = self.TensorGraphInfo(\n          tensor_id=tensor_id, subgraph_id=subgraph_id, producer=producer, consumers=consumers\n      )\n      yield tfl_flatbuffer_utils.get_tensor_name(tensor), info"), (), 'keyword construction and direct yield', kind='twin')
+add('C03.check_only_star', 'C03', (RM, "          if selected_recipe.algorithm_key != AlgorithmName.NO_QUANTIZE:\n", "          if selected_recipe.algorithm_key != AlgorithmName.NO_QUANTIZE and selected_recipe.operation == _TFLOpName.ALL_SUPPORTED:\n"),
+    'C03.R10', 'unsupported config of an op-specific rule is applied (seeded b4-C03)')
+
+MMF = 'model_modifier.py'
+add('C16.f12', 'C16', (MMF, "      if buffer.data is not None and len(buffer.data) > 0:\n        buffer.data = None", "      if buffer.data is not None:\n        buffer.data = None"),
+    'C16.R6', 'defect F12 returns: a zero-length constant gets a placeholder size that becomes 0 in the final pass', control=True)
+add('C16.second_pass_keeps_empty', 'C16', (MMF, "      if buffer_data is None or len(buffer_data) == 0:\n        continue\n      model_bytearray += buffer_data", "      if buffer_data is None:\n        continue\n      model_bytearray += buffer_data"),
+    (), 'second pass does not skip empty constants (appends nothing, pads nothing: no change)', kind='twin')
+add('C16.first_pass_keeps_empty', 'C16', (MMF, "      if buffer_data is None or len(buffer_data) == 0:\n        continue\n      buffer.offset = len(dummy_bytearray)", "      if buffer_data is None:\n        continue\n      buffer.offset = len(dummy_bytearray)"),
+    'C16.R6', 'a zero-length constant gets an offset in the final table only: the table grows after the offsets were measured')
